@@ -1,19 +1,25 @@
 (* C12 - Zernike fit, compose and remove are mutually inverse for any mode set.
 
-   Reading guide.  [S] ranges over every formally real commutative ring (sum of squares = 0 only if
-   all terms are 0): the reals and the rationals are instances (C12_scalars).  The mode family
+   Reading guide.  [S] ranges over every formally real commutative ring (a sum of squares is 0 only
+   if all terms are 0): the reals and the rationals are instances (C12_scalars).  The mode family
    [zpoly normalize crd j r c] is ARBITRARY: every subset and ordering of Noll modes, both
    normalisations, default or caller-supplied (rho, theta) are "another family".  [is0] is the
-   bool cast of the mask.  [solve] is np.linalg.pinv + einsum with the contract [solve_sound]
-   ("an answer solves the normal equations"); the executed instance [q_solve] satisfies it
-   (C12_solver_sound).  [indep k N B]: the k masked modes, sampled on the N pixels, are linearly
-   independent.  [basis_mat mask modes nrm crd i p] = pixel p (row-major) of zernike(mask, modes[i]).
-   All theorems are partial-correctness statements ("if the call returns ..."): that the solver
-   returns an answer for an independent family is observed on every executed case, not proved. *)
+   bool cast of the mask.  [solve] stands for np.linalg.pinv + einsum with the contract
+     sound: an answer solves the normal equations [NE] of min |y - sum_i c_i B_i|^2, and
+     total: an independent family gets an answer (pinv always returns).
+   [indep k N B]: the k masked modes, sampled on the N pixels, are linearly independent.
+   [basis_mat mask modes nrm crd i p] = pixel p (row-major) of zernike(mask, modes[i], nrm, crd).
+   [scatter n modes cs] = the coefficient vector handed to zernike_compose: cs_i at position
+   modes_i - 1 (Noll index modes_i), length n.
+   The executed solver [q_solve] is proved sound (C12_solver_sound); that it is total is observed on
+   every executed case, not proved: the statements about the executed instance are [_partial]
+   ("if the call returns"). *)
 From LV Require Import Model.ZernikeFit Proofs.ZernikeFitP Lib.LsqR Lib.Cis.
 
-Notation solver_contract S solve :=
+Notation solver_sound S solve :=
   (forall k N B y (c : list S), solve k N B y = Ok c -> Z.of_nat (length c) = k /\ NE k N B y (nthZ c)).
+Notation solver_total S solve :=
+  (forall k N (B : Z -> Z -> S) (y : Z -> S), indep k N B -> exists c : list S, solve k N B y = Ok c).
 
 (* (a) independence => the normal equations have at most one solution *)
 Theorem C12_lsq_unique :
@@ -24,28 +30,27 @@ Proof. intros S R FR k N B y c c'. exact (lsq_unique S R k N B y c c' FR). Qed.
 Print Assumptions C12_lsq_unique.
 
 (* (b) fitting an OPD composed from coefficients returns those coefficients: any list of modes
-   (subset, order), any normalisation flag, any coordinates.  [scatter n modes cs] is the
-   coefficient vector handed to zernike_compose: cs_i at position modes_i - 1. *)
+   (subset, order), any normalisation flag, any coordinates *)
 Theorem C12_fit_compose_id :
   forall (S : Scalar), is_ring S -> formally_real S ->
   forall (Crd : Type) (is0 : S -> bool) (zpoly : bool -> option Crd -> Z -> Z -> Z -> S) solve,
-  solver_contract S solve ->
-  forall (mask : arr S) (n : Z) (modes : list Z) (cs c : list S) (normalize : bool) (crd : option Crd),
+  solver_sound S solve -> solver_total S solve ->
+  forall (mask : arr S) (n : Z) (modes : list Z) (cs : list S) (normalize : bool) (crd : option Crd),
   0 <= n -> (forall i, 0 <= i < Z.of_nat (length modes) -> 1 <= nthmode modes i <= n) ->
   length cs = length modes ->
   indep (Z.of_nat (length modes)) (nr mask * nc mask) (basis_mat is0 zpoly mask modes normalize crd) ->
   zernike_fit is0 zpoly solve (zernike_compose is0 zpoly mask (scatter n modes cs) normalize crd)
-              mask modes normalize crd = Ok c ->
-  c = cs.
-Proof. intros S R FR Crd is0 zpoly solve Hs mask n modes cs c nrm crd.
-  exact (fit_compose_id S R FR Crd is0 zpoly solve Hs mask n modes cs c nrm crd). Qed.
+              mask modes normalize crd = Ok cs.
+Proof. intros S R FR Crd is0 zpoly solve Hs Ht mask n modes cs nrm crd.
+  exact (fit_compose_id_total S R FR Crd is0 zpoly solve Hs Ht mask n modes cs nrm crd). Qed.
 Print Assumptions C12_fit_compose_id.
 
-(* the same for ANY array that is a combination of the masked modes on the pixels *)
+(* the same for ANY array that is a combination of the masked modes on the pixels (needs only the
+   soundness half of the contract: whatever the fit returns are the coefficients) *)
 Theorem C12_fit_span_id :
   forall (S : Scalar), is_ring S -> formally_real S ->
   forall (Crd : Type) (is0 : S -> bool) (zpoly : bool -> option Crd -> Z -> Z -> Z -> S) solve,
-  solver_contract S solve ->
+  solver_sound S solve ->
   forall (opd mask : arr S) (modes : list Z) (normalize : bool) (crd : option Crd) (cs c : list S),
   indep (Z.of_nat (length modes)) (nr mask * nc mask) (basis_mat is0 zpoly mask modes normalize crd) ->
   length cs = length modes ->
@@ -72,54 +77,45 @@ Proof. intros S Crd is0 zpoly solve opd mask res modes crd.
   exact (remove_ok S Crd is0 zpoly solve opd mask modes crd res). Qed.
 Print Assumptions C12_remove_recomposes_requested_modes.
 
-(* (c1) the residual's fitted coefficients for the removed modes vanish *)
-Theorem C12_remove_fit_zero :
+(* (c1, c2) removal subtracts exactly the least-squares component: for every OPD of the mask's
+   shape the call returns, the residual's fitted coefficients for the removed modes vanish, and
+   removing again changes nothing *)
+Theorem C12_remove_is_projection :
   forall (S : Scalar), is_ring S -> formally_real S ->
   forall (Crd : Type) (is0 : S -> bool) (zpoly : bool -> option Crd -> Z -> Z -> Z -> S) solve,
-  solver_contract S solve ->
-  forall (opd mask res : arr S) (modes : list Z) (crd : option Crd) (c' : list S),
+  solver_sound S solve -> solver_total S solve ->
+  forall (opd mask : arr S) (modes : list Z) (crd : option Crd),
+  modes_ok modes = true -> nr opd = nr mask -> nc opd = nc mask ->
   indep (Z.of_nat (length modes)) (nr mask * nc mask) (basis_mat is0 zpoly mask modes true crd) ->
-  zernike_remove is0 zpoly solve opd mask modes crd = Ok res ->
-  zernike_fit is0 zpoly solve res mask modes true crd = Ok c' ->
-  forall i, 0 <= i < Z.of_nat (length modes) -> nthZ c' i = k0.
-Proof. intros S R FR Crd is0 zpoly solve Hs opd mask res modes crd c'.
-  exact (remove_fit_zero S R FR Crd is0 zpoly solve Hs opd mask modes crd res c'). Qed.
-Print Assumptions C12_remove_fit_zero.
-
-(* (c2) removal is idempotent *)
-Theorem C12_remove_idempotent :
-  forall (S : Scalar), is_ring S -> formally_real S ->
-  forall (Crd : Type) (is0 : S -> bool) (zpoly : bool -> option Crd -> Z -> Z -> Z -> S) solve,
-  solver_contract S solve ->
-  forall (opd mask res res' : arr S) (modes : list Z) (crd : option Crd),
-  indep (Z.of_nat (length modes)) (nr mask * nc mask) (basis_mat is0 zpoly mask modes true crd) ->
-  zernike_remove is0 zpoly solve opd mask modes crd = Ok res ->
-  zernike_remove is0 zpoly solve res mask modes crd = Ok res' ->
-  nr res' = nr res /\ nc res' = nc res /\ forall r c, get res' r c = get res r c.
-Proof. intros S R FR Crd is0 zpoly solve Hs opd mask res res' modes crd.
-  exact (remove_idempotent S R FR Crd is0 zpoly solve Hs opd mask modes crd res res'). Qed.
-Print Assumptions C12_remove_idempotent.
+  exists res, zernike_remove is0 zpoly solve opd mask modes crd = Ok res /\
+    (exists c', zernike_fit is0 zpoly solve res mask modes true crd = Ok c' /\ length c' = length modes /\
+                forall i, 0 <= i < Z.of_nat (length modes) -> nthZ c' i = k0) /\
+    (exists res', zernike_remove is0 zpoly solve res mask modes crd = Ok res' /\
+                  nr res' = nr res /\ nc res' = nc res /\ forall r c, get res' r c = get res r c).
+Proof. intros S R FR Crd is0 zpoly solve Hs Ht opd mask modes crd.
+  exact (remove_is_projection S R FR Crd is0 zpoly solve Hs Ht opd mask modes crd). Qed.
+Print Assumptions C12_remove_is_projection.
 
 (* (c3) an OPD made only of the removed modes is reduced to zero, everywhere *)
 Theorem C12_remove_compose_zero :
   forall (S : Scalar), is_ring S -> formally_real S ->
   forall (Crd : Type) (is0 : S -> bool) (zpoly : bool -> option Crd -> Z -> Z -> Z -> S) solve,
-  solver_contract S solve ->
-  forall (mask res : arr S) (n : Z) (modes : list Z) (cs : list S) (crd : option Crd),
+  solver_sound S solve -> solver_total S solve ->
+  forall (mask : arr S) (n : Z) (modes : list Z) (cs : list S) (crd : option Crd),
   0 <= n -> (forall i, 0 <= i < Z.of_nat (length modes) -> 1 <= nthmode modes i <= n) ->
   length cs = length modes ->
   indep (Z.of_nat (length modes)) (nr mask * nc mask) (basis_mat is0 zpoly mask modes true crd) ->
-  zernike_remove is0 zpoly solve (zernike_compose is0 zpoly mask (scatter n modes cs) true crd) mask modes crd = Ok res ->
-  forall r c, get res r c = k0.
-Proof. intros S R FR Crd is0 zpoly solve Hs mask res n modes cs crd.
-  exact (remove_compose_zero S R FR Crd is0 zpoly solve Hs mask n modes cs crd res). Qed.
+  exists res, zernike_remove is0 zpoly solve (zernike_compose is0 zpoly mask (scatter n modes cs) true crd) mask modes crd = Ok res /\
+              forall r c, get res r c = k0.
+Proof. intros S R FR Crd is0 zpoly solve Hs Ht mask n modes cs crd.
+  exact (remove_compose_zero_total S R FR Crd is0 zpoly solve Hs Ht mask n modes cs crd). Qed.
 Print Assumptions C12_remove_compose_zero.
 
 (* (d) fit is linear *)
 Theorem C12_fit_linear :
   forall (S : Scalar), is_ring S -> formally_real S ->
   forall (Crd : Type) (is0 : S -> bool) (zpoly : bool -> option Crd -> Z -> Z -> Z -> S) solve,
-  solver_contract S solve ->
+  solver_sound S solve ->
   forall (mask : arr S) (modes : list Z) (normalize : bool) (crd : option Crd) (a : S) (y1 y2 y3 : arr S) (c1 c2 c3 : list S),
   indep (Z.of_nat (length modes)) (nr mask * nc mask) (basis_mat is0 zpoly mask modes normalize crd) ->
   zernike_fit is0 zpoly solve y1 mask modes normalize crd = Ok c1 ->
@@ -136,7 +132,7 @@ Print Assumptions C12_fit_linear.
 Theorem C12_mask_application :
   forall (S : Scalar), is_ring S -> formally_real S ->
   forall (Crd : Type) (is0 : S -> bool) (zpoly : bool -> option Crd -> Z -> Z -> Z -> S) solve,
-  solver_contract S solve ->
+  solver_sound S solve ->
   forall (mask : arr S) (modes : list Z) (normalize : bool) (crd : option Crd),
   (forall (y1 y2 : arr S) (c1 c2 : list S),
      indep (Z.of_nat (length modes)) (nr mask * nc mask) (basis_mat is0 zpoly mask modes normalize crd) ->
@@ -152,9 +148,8 @@ Proof. intros S R FR Crd is0 zpoly solve Hs mask modes nrm crd. split.
   - intros opd res r c. exact (remove_outside_mask S R Crd is0 zpoly solve opd mask modes crd res r c). Qed.
 Print Assumptions C12_mask_application.
 
-(* (e) the executed solver honours the contract by construction, and the two scalar structures of
-   interest are formally real: every theorem above holds for the executed instance (QS, q_solve)
-   and for the reals with any solver satisfying the contract *)
+(* (e) the executed solver is sound by construction (its answer is checked against G c = B y inside
+   the model), and the two scalar structures of interest are formally real *)
 Theorem C12_solver_sound :
   forall (k N : Z) (B : Z -> Z -> QS) (y : Z -> QS) (c : list QS),
   q_solve k N B y = Ok c -> Z.of_nat (length c) = k /\ NE k N B y (nthZ c).
@@ -165,8 +160,10 @@ Theorem C12_scalars : (is_ring RS /\ formally_real RS) /\ (is_ring QS /\ formall
 Proof. exact (conj (conj RS_ring RS_formally_real) (conj QS_ring QS_formally_real)). Qed.
 Print Assumptions C12_scalars.
 
-(* the executed model itself: no hypothesis on the solver left *)
-Theorem C12_executed_fit_compose_id :
+(* the executed model itself (rationals, validated Gauss solver): no hypothesis on the solver is
+   left, but the statements are conditional on the calls returning - totality of the Gauss solver
+   on independent families is not proved *)
+Theorem C12_executed_fit_compose_id_partial :
   forall (Crd : Type) (is0 : QS -> bool) (zpoly : bool -> option Crd -> Z -> Z -> Z -> QS)
          (mask : arr QS) (n : Z) (modes : list Z) (cs c : list QS) (normalize : bool) (crd : option Crd),
   0 <= n -> (forall i, 0 <= i < Z.of_nat (length modes) -> 1 <= nthmode modes i <= n) ->
@@ -177,7 +174,21 @@ Theorem C12_executed_fit_compose_id :
   c = cs.
 Proof. intros Crd is0 zpoly mask n modes cs c nrm crd.
   exact (fit_compose_id QS QS_ring QS_formally_real Crd is0 zpoly q_solve q_solve_sound mask n modes cs c nrm crd). Qed.
-Print Assumptions C12_executed_fit_compose_id.
+Print Assumptions C12_executed_fit_compose_id_partial.
+
+Theorem C12_executed_remove_projection_partial :
+  forall (Crd : Type) (is0 : QS -> bool) (zpoly : bool -> option Crd -> Z -> Z -> Z -> QS)
+         (opd mask res : arr QS) (modes : list Z) (crd : option Crd),
+  indep (Z.of_nat (length modes)) (nr mask * nc mask) (basis_mat is0 zpoly mask modes true crd) ->
+  zernike_remove is0 zpoly q_solve opd mask modes crd = Ok res ->
+  (forall c', zernike_fit is0 zpoly q_solve res mask modes true crd = Ok c' ->
+              forall i, 0 <= i < Z.of_nat (length modes) -> nthZ c' i = k0) /\
+  (forall res', zernike_remove is0 zpoly q_solve res mask modes crd = Ok res' ->
+                nr res' = nr res /\ nc res' = nc res /\ forall r c, get res' r c = get res r c).
+Proof. intros Crd is0 zpoly opd mask res modes crd Hi Hr. split.
+  - intros c'. exact (remove_fit_zero QS QS_ring QS_formally_real Crd is0 zpoly q_solve q_solve_sound opd mask modes crd res c' Hi Hr).
+  - intros res'. exact (remove_idempotent QS QS_ring QS_formally_real Crd is0 zpoly q_solve q_solve_sound opd mask modes crd res res' Hi Hr). Qed.
+Print Assumptions C12_executed_remove_projection_partial.
 
 (* ---- non-vacuity: a concrete 3-mode instance on a 2x2 mask, modes requested as [3; 1; 2] ----
    family: mode 1 = 1, mode 2 = column index, mode 3 = row index (independent on the 4 pixels);
